@@ -20,7 +20,8 @@ func init() {
 		Explanation: "The delay function touches its argument through one comparison and one shift, so the 64-bit input range splits into finitely many classes (one per value up to the guard threshold + 1, and one for everything above). " +
 			"An interval interpreter over the SSA of ExponentialBackoffDuration (addJitter inlined, rand.Float64 ∈ [0,1], float bounds rounded outward, integer arithmetic exact with overflow detection) evaluates every class and discharges per class: shift/multiply cannot overflow, result > 0, result ≤ cap·(1+j), target doubles from the base until the cap, result within ±j of the target with j ≤ 0.1. " +
 			"Structurally (C08.L): in the polling loop every path from a failed list call back to the loop head sleeps for ExponentialBackoffDuration(counter), the counter is incremented only on failure and reset to 0 on success. " +
-			"Not decided: that time.Sleep sleeps that long.",
+			"Not decided: that time.Sleep sleeps that long." +
+			" (E, second part) no error returned by ListPendingRequests has a nil constant among its possible values (a pass-through wrapper cannot swallow it).",
 		Assumptions: []string{
 			"IEEE-754 monotonicity of float64 +,-,* and of float→int truncation; math.Log2 evaluated with the Go runtime of the checker",
 			"uint is 64 bits (a 32-bit uint is a subset of the analysed range)",
